@@ -150,7 +150,9 @@ func checkC16(cx *Ctx, r *Report) {
 		r.Check(okList, "R-SELECT", key+":pairing", w.InstrPos(slot0), "Location and Binding of the same element of the list passed in", "the selected element does not come from the list of registered endpoints passed in")
 		nElem++
 		// guards on every path to the assigning block
+		fx.loopPaths = true // the selection loops carry state (candidate, flags) from one iteration to the next
 		pts, ok := fx.atomPathsTo(s.pred, 8192)
+		fx.loopPaths = false
 		if !ok || len(pts) == 0 {
 			r.Undecided("R-SELECT", key+":guard", w.InstrPos(slot0), "paths to the assignment not enumerable")
 			continue
@@ -159,6 +161,7 @@ func checkC16(cx *Ctx, r *Report) {
 		stage := 0
 		bad := ""
 		sawFirstCandidate := false
+		staleBest := ""
 		for _, p := range pts {
 			g1, g2, lt, firstCand, nothingYet, sentinel := false, false, false, false, false, ""
 			for _, a := range p.Atoms {
@@ -189,6 +192,22 @@ func checkC16(cx *Ctx, r *Report) {
 								if cl, ok := ex.Tuple.(*ssa.Call); ok && calleeName(cl) == "strconv.Atoi" {
 									if sl, f := cx.elemFieldOf(cl.Call.Args[0]); sameSlot(sl, slot0) && f == "Index" && strings.HasPrefix(a.A, "call@") {
 										lt = true
+										// the bound compared with is the best index so far: it must become this
+										// entry's index when the entry is taken (else the search compares with a stale bound)
+										best := c.Y
+										if o == c.Y {
+											best = c.X
+										}
+										if _, isK := best.(*ssa.Const); isK {
+											staleBest = "an entry's index is compared with the constant " + fx.path(best) + " instead of the best index found so far: the lowest index is not found"
+										}
+										if bp, isPhi := best.(*ssa.Phi); isPhi {
+											for k, pr := range bp.Block().Preds {
+												if pr == s.pred && bp.Edges[k] != o {
+													staleBest = "the best index so far is not set to the index of the entry that is taken (it keeps " + fx.path(bp.Edges[k]) + "): later entries are compared with a stale bound and the lowest index is not found"
+												}
+											}
+										}
 									}
 								}
 							}
@@ -285,6 +304,9 @@ func checkC16(cx *Ctx, r *Report) {
 			default:
 				bad = "an entry can be selected on a path that satisfies none of the documented conditions (requested binding / default after no binding match / lower index after neither): " + atomsString(p.Atoms)
 			}
+		}
+		if stage == 3 && bad == "" && staleBest != "" {
+			bad = staleBest
 		}
 		infos = append(infos, siteInfo{s, stage})
 		switch stage {
